@@ -1,0 +1,45 @@
+//go:build verif
+
+// Contracts for package encode, checked by /verif/govc. Comment-only file: with the
+// build tag off it does not exist for the compiler.
+
+package encode
+
+//@ uses numbers
+
+//@ contract (*buffer).encodeNatural
+//@   modifies *b mem.u8
+//@   let start (bvadd (off *b) (len (old *b)))
+//@   ensures [C08.enc.nat.minimal C01.enc.nat] (appended *b (spec.natMinLen u) 4)
+//@   ensures [C08.enc.nat.len C01.enc.nat] (= (spec.numLen (select (arr *b) start)) (spec.natMinLen u))
+//@   ensures [C08.enc.nat.value C01.enc.nat] (=> (bvult u #x40000000) (= (spec.natV (arr *b) start) u))
+
+//@ contract (*buffer).encode4ByteReal
+//@   modifies *b mem.u8
+//@   let start (bvadd (off *b) (len (old *b)))
+//@   ensures [C08.enc.real4.append C01.enc.real4] (appended *b (int 4) 4)
+//@   ensures [C08.enc.real4.len C01.enc.real4] (= (spec.numLen (select (arr *b) start)) (int 4))
+//@   ensures [C08.enc.real4.close C01.enc.real4] (=> (not (fp.isNaN f)) (spec.close4bits (f32bits f) (spec.bits4 (arr *b) start)))
+//@   ensures [C08.enc.real4.nan C01.enc.real4] (spec.close4nan f (spec.bits4 (arr *b) start))
+
+//@ contract (*buffer).encodeReal
+//@   modifies *b mem.u8
+//@   let start (bvadd (off *b) (len (old *b)))
+//@   let d (spec.realV (arr *b) start)
+//@   ensures [C08.enc.real.append C01.enc.real] (appended *b result 4)
+//@   ensures [C08.enc.real.len C01.enc.real] (= (spec.numLen (select (arr *b) start)) result)
+//@   ensures [C08.enc.real.minimal] (and (= (= result (int 1)) (spec.real.rep1 f)) (= (= result (int 2)) (and (spec.real.rep2 f) (not (spec.real.rep1 f)))) (or (= result (int 1)) (= result (int 2)) (= result (int 4))))
+//@   ensures [C08.enc.real.exact C01.enc.real] (=> (not (= result (int 4))) (fp.eq d f))
+//@   ensures [C08.enc.real.close C01.enc.real] (=> (and (= result (int 4)) (not (fp.isNaN f))) (spec.close4bits (f32bits f) (spec.bits4 (arr *b) start)))
+//@   ensures [C08.enc.real.nan C01.enc.real] (=> (= result (int 4)) (spec.close4nan f (spec.bits4 (arr *b) start)))
+
+//@ contract (*buffer).encodeCoordinate
+//@   modifies *b mem.u8
+//@   let start (bvadd (off *b) (len (old *b)))
+//@   let d (spec.coordV (arr *b) start)
+//@   ensures [C08.enc.coord.append C01.enc.coord] (appended *b result 4)
+//@   ensures [C08.enc.coord.len C01.enc.coord] (= (spec.numLen (select (arr *b) start)) result)
+//@   ensures [C08.enc.coord.minimal] (and (= (= result (int 1)) (spec.coord.rep1 f)) (= (= result (int 2)) (and (spec.coord.rep2 f) (not (spec.coord.rep1 f)))) (or (= result (int 1)) (= result (int 2)) (= result (int 4))))
+//@   ensures [C08.enc.coord.exact C01.enc.coord] (=> (not (= result (int 4))) (fp.eq d f))
+//@   ensures [C08.enc.coord.close C01.enc.coord] (=> (and (= result (int 4)) (not (fp.isNaN f))) (spec.close4bits (f32bits f) (spec.bits4 (arr *b) start)))
+//@   ensures [C08.enc.coord.nan C01.enc.coord] (=> (= result (int 4)) (spec.close4nan f (spec.bits4 (arr *b) start)))
